@@ -449,8 +449,8 @@ class Fn:
                     ts = f.local_terms(0, (rbs[0], f.nstmts(rbs[0])))
                     if len(ts) == 1:
                         n = next(iter(ts))
-                        if n[0] in ('agg', 'const', 'tuple'):
-                            val = n
+                        if n[0] in ('agg', 'const', 'tuple') or (n[0] == 'call' and n[1] == 'std::ops::RangeInclusive::<Idx>::new'):
+                            val = n         # (a literal, or the pure constructor of `a..=b`)
             except Exception:
                 val = None
             cache[pb.path] = val
